@@ -166,6 +166,14 @@ def field_cases(lay):
                     layouts._put(b, off + 4 * i, 4, words[i] if mask >> i & 1 else 0)
                 out.append((name, "words%s" % format(mask, "04b")[::-1], bytes(b), None))
             continue
+        if name == "ut_exit" and sz == 4:
+            # struct exit_status { short e_termination; short e_exit; }: the two halves are shown separately
+            for et, ee in ((1, 0), (0, 1), (1, 1), (2, 1), (1, 2), (15, 3)):
+                b = bytearray(base)
+                layouts._put(b, off, 2, et)
+                layouts._put(b, off + 2, 2, ee)
+                out.append((name, "term%d_exit%d" % (et, ee), bytes(b), None))
+            continue
         is_str = sz > 8 or name in ("ut_id", "ut_line", "ut_name", "ut_user", "ut_host", "ll_line", "ll_host", "ac_comm")
         if is_str:
             esz = 16 if (name == "ac_comm" and sz == 17) else sz      # char ac_comm[ACCT_COMM + 1]: the last byte is the terminator
